@@ -271,7 +271,8 @@ class Xform(ast.NodeTransformer):
         self.generic_visit(n)
         if len(n.generators) == 1 and not n.generators[0].ifs:
             g = n.generators[0]
-            if isinstance(g.target, ast.Tuple) and all(isinstance(e, ast.Name) for e in g.target.elts):
+            if isinstance(g.target, ast.Tuple) and all(isinstance(e, ast.Name) for e in g.target.elts) \
+                    and len({e.id for e in g.target.elts}) == len(g.target.elts):      # `for _, key, _ in ...` stays as it is
                 args = [ast.arg(e.id) for e in g.target.elts]
                 lam = ast.Lambda(ast.arguments(posonlyargs=[], args=args, kwonlyargs=[], kw_defaults=[], defaults=[]),
                                  ast.Tuple([n.key, n.value], ast.Load()))
@@ -548,7 +549,13 @@ def extract(modname, qualname, inv_loops=None, label=None):
         node = x.visit_ClassDef(node)
     m = ast.Module([node], [])
     ast.fix_missing_locations(m)
-    code = compile(m, "<pyvc:%s:%s>" % (modname, qualname), "exec")
+    try:
+        code = compile(m, "<pyvc:%s:%s>" % (modname, qualname), "exec")
+    except SyntaxError as e:
+        # the mechanical rewrite produced something CPython rejects: a limit of the front end on this source, never a
+        # statement about the code (found on refactoring R_C18_1: `for _, key, _, _ in TABLE` in a dict comprehension)
+        from .sym import Undecided
+        raise Undecided("front end: the rewritten source of %s does not compile (%s)" % (qualname, e.msg))
     return code, info, node.name
 
 
